@@ -260,13 +260,14 @@ def validate(chk, rnd):
         ii, si = " " * rnd.choice([0, 2]), " " * rnd.choice([0, 2, 4])
         if len(ii) >= w or len(si) >= w:
             continue
-        real = textwrap.wrap(t, width=w, initial_indent=ii, subsequent_indent=si, break_long_words=False, break_on_hyphens=False)
-        for c, r in bstr.explore(lambda: wf.tw_wrap(bstr.S(t), width=w, initial_indent=ii, subsequent_indent=si,
-                                                    break_long_words=False, break_on_hyphens=False)):
-            n += 1
-            if [x.concrete() for x in r] != real:
-                bad += 1
-                chk.sample({"textwrap_model_disagreement": [t, w, real]})
+        for blw in (False, True):
+            real = textwrap.wrap(t, width=w, initial_indent=ii, subsequent_indent=si, break_long_words=blw, break_on_hyphens=False)
+            for c, r in bstr.explore(lambda: wf.tw_wrap(bstr.S(t), width=w, initial_indent=ii, subsequent_indent=si,
+                                                        break_long_words=blw, break_on_hyphens=False)):
+                n += 1
+                if [x.concrete() for x in r] != real:
+                    bad += 1
+                    chk.sample({"textwrap_model_disagreement": [t, w, blw, real]})
     tw = textwrap_model()
     for t in texts:
         for (w, ind, nl) in ((72, 0, None), (72, 8, None), (40, 4, False), (72, 4, True)):
